@@ -113,7 +113,7 @@ def progcheck_cached(tier, seed):
     """The six properties served by ProgCheck share one exploration: its witnesses are cached by
     the content of the tool's sources, the specification and the harness."""
     from harness.corpus import _files_hash, SPEC_FILES, HARNESS_FILES
-    key = ["progcheck", tier, seed, fw.tree_hash(), _files_hash(SPEC_FILES()), _files_hash(HARNESS_FILES()),
+    key = ["progcheck", tier, seed, fw.tree_hash(), _files_hash(SPEC_FILES(['Teal', 'Cfg', 'Avm', 'Reps', 'ProgCheck'])), _files_hash(HARNESS_FILES()),
            SIZES[tier]]
 
     def build():
